@@ -375,3 +375,419 @@ Proof.
     + intros (c & <- & Hc). exists c. split; [exact Hc|reflexivity].
     + intros (c & Hc & ->). exists c. split; [reflexivity|exact Hc].
 Qed.
+
+(* ---- the contents queries: ports / pins / cables / wires of the instances in scope ---- *)
+
+(* one level (ports, cables) and two levels (pins, wires) of items hung below a path *)
+Definition items_at (g : id -> list id) (p : href) : list href :=
+  match p with [] => [] | x :: _ => map (fun q => q :: p) (g x) end.
+Definition subitems_at (g k : id -> list id) (p : href) : list href :=
+  flat_map (fun hq => match hq with q :: _ => map (fun i => i :: hq) (k q) | [] => [] end)
+           (items_at g p).
+
+Lemma hports_items s : hports_at s = items_at (ports_of s).
+Proof. reflexivity. Qed.
+Lemma hcables_items s : hcables_at s = items_at (cables_of s).
+Proof. reflexivity. Qed.
+Lemma hpins_items s : hpins_at s = subitems_at (ports_of s) (kids s RPins).
+Proof. reflexivity. Qed.
+Lemma hwires_items s : hwires_at s = subitems_at (cables_of s) (kids s RWires).
+Proof. reflexivity. Qed.
+
+Lemma items_at_in g p h :
+  In h (items_at g p) <-> exists q x r, p = x :: r /\ h = q :: x :: r /\ In q (g x).
+Proof.
+  destruct p as [|x r]; cbn.
+  - split; [contradiction|]. intros (q & x & r & E & _). discriminate.
+  - rewrite in_map_iff. split.
+    + intros (q & <- & Hq). exists q, x, r. repeat split. exact Hq.
+    + intros (q & x' & r' & E & -> & Hq). inversion E; subst. exists q. split; [reflexivity|exact Hq].
+Qed.
+
+Lemma items_at_nodup g p : (forall x, NoDup (g x)) -> NoDup (items_at g p).
+Proof.
+  intro G. destruct p as [|x r]; cbn; [constructor|].
+  apply nodup_map_inj; [|apply G]. intros a b _ _ H. inversion H. reflexivity.
+Qed.
+
+Lemma subitems_at_in g k p h :
+  In h (subitems_at g k p) <->
+  exists i q x r, p = x :: r /\ h = i :: q :: x :: r /\ In q (g x) /\ In i (k q).
+Proof.
+  unfold subitems_at. rewrite in_flat_map. split.
+  - intros (hq & Hhq & Hh). apply items_at_in in Hhq as (q & x & r & -> & -> & Hq).
+    apply in_map_iff in Hh as (i & <- & Hi). exists i, q, x, r. repeat split; assumption.
+  - intros (i & q & x & r & -> & -> & Hq & Hi). exists (q :: x :: r). split.
+    + apply items_at_in. exists q, x, r. repeat split. exact Hq.
+    + apply in_map_iff. exists i. split; [reflexivity|exact Hi].
+Qed.
+
+Lemma subitems_at_nodup g k p :
+  (forall x, NoDup (g x)) -> (forall q, NoDup (k q)) -> NoDup (subitems_at g k p).
+Proof.
+  intros G K. unfold subitems_at. apply nodup_flat_map.
+  - apply items_at_nodup. exact G.
+  - intros hq _. destruct hq as [|q r]; [constructor|].
+    apply nodup_map_inj; [|apply K]. intros a b _ _ H. inversion H. reflexivity.
+  - intros a b y Ha Hb Hya Hyb.
+    apply items_at_in in Ha as (q & x & r & _ & -> & _).
+    apply items_at_in in Hb as (q' & x' & r' & _ & -> & _).
+    apply in_map_iff in Hya as (i & <- & _). apply in_map_iff in Hyb as (i' & E & _).
+    inversion E. reflexivity.
+Qed.
+
+Section Below.
+  Variables (s : state) (keep : id -> bool) (t : id) (lw : list href).
+  Hypothesis lw_nodup : NoDup lw.
+  Hypothesis lw_in : forall p, In p lw <-> ext s keep [t] p.
+  (* the filter lets through every child that has children *)
+  Hypothesis keep_inner : forall c y, child s c y -> sub s c <> [] -> keep c = true.
+
+  Lemma scope_path x r (Hx : keep x = true) : In (x :: r) lw <-> is_rpath s t (x :: r).
+  Proof.
+    rewrite lw_in. split; [apply ext_rpath|]. intro H. apply rpath_ext; [exact keep_inner|exact H|].
+    destruct r; [exact I|exact Hx].
+  Qed.
+
+  Lemma items_below_spec (g : id -> list id) :
+    (forall x, NoDup (g x)) -> (forall x, g x <> [] -> keep x = true) ->
+    NoDup (flat_map (items_at g) lw) /\
+    forall h, In h (flat_map (items_at g) lw) <->
+              exists q x r, h = q :: x :: r /\ is_rpath s t (x :: r) /\ In q (g x).
+  Proof.
+    intros G Kg. split.
+    - apply nodup_flat_map; [exact lw_nodup|intros; apply items_at_nodup; exact G|].
+      intros a b y _ _ Ha Hb.
+      apply items_at_in in Ha as (q & x & r & -> & -> & _).
+      apply items_at_in in Hb as (q' & x' & r' & -> & E & _). inversion E. reflexivity.
+    - intro h. rewrite in_flat_map. split.
+      + intros (p & Hp & Hh). apply items_at_in in Hh as (q & x & r & -> & -> & Hq).
+        exists q, x, r. repeat split; [|exact Hq]. apply scope_path in Hp; [exact Hp|].
+        apply Kg. intro E. rewrite E in Hq. contradiction.
+      + intros (q & x & r & -> & Hp & Hq). exists (x :: r). split.
+        * apply scope_path; [|exact Hp]. apply Kg. intro E. rewrite E in Hq. contradiction.
+        * apply items_at_in. exists q, x, r. repeat split. exact Hq.
+  Qed.
+
+  Lemma subitems_below_spec (g k : id -> list id) :
+    (forall x, NoDup (g x)) -> (forall q, NoDup (k q)) -> (forall x, g x <> [] -> keep x = true) ->
+    NoDup (flat_map (subitems_at g k) lw) /\
+    forall h, In h (flat_map (subitems_at g k) lw) <->
+              exists i q x r, h = i :: q :: x :: r /\ is_rpath s t (x :: r) /\ In q (g x) /\ In i (k q).
+  Proof.
+    intros G K Kg. split.
+    - apply nodup_flat_map; [exact lw_nodup|intros; apply subitems_at_nodup; assumption|].
+      intros a b y _ _ Ha Hb.
+      apply subitems_at_in in Ha as (i & q & x & r & -> & -> & _).
+      apply subitems_at_in in Hb as (i' & q' & x' & r' & -> & E & _). inversion E. reflexivity.
+    - intro h. rewrite in_flat_map. split.
+      + intros (p & Hp & Hh). apply subitems_at_in in Hh as (i & q & x & r & -> & -> & Hq & Hi).
+        exists i, q, x, r. repeat split; [|exact Hq|exact Hi]. apply scope_path in Hp; [exact Hp|].
+        apply Kg. intro E. rewrite E in Hq. contradiction.
+      + intros (i & q & x & r & -> & Hp & Hq & Hi). exists (x :: r). split.
+        * apply scope_path; [|exact Hp]. apply Kg. intro E. rewrite E in Hq. contradiction.
+        * apply subitems_at_in. exists i, q, x, r. repeat split; assumption.
+  Qed.
+End Below.
+
+(* the three filters *)
+Lemma keep_all_inner s c y : child s c y -> sub s c <> [] -> keep_all c = true.
+Proof. reflexivity. Qed.
+
+Lemma has_ref_inner s c y : child s c y -> sub s c <> [] -> has_ref s c = true.
+Proof. intros _. unfold sub, has_ref. destruct (iref s c); congruence. Qed.
+
+Lemma has_ref_ports s x : ports_of s x <> [] -> has_ref s x = true.
+Proof. unfold ports_of, has_ref. destruct (iref s x); congruence. Qed.
+
+Lemma nonleaf_inner s c y : child s c y -> sub s c <> [] -> nonleaf_ref s c = true.
+Proof.
+  intros _. unfold sub, nonleaf_ref. destruct (iref s c) as [d|]; [|congruence].
+  destruct (kids s RChildren d); [congruence|reflexivity].
+Qed.
+
+Lemma nonleaf_cables s x : cables_of s x <> [] -> nonleaf_ref s x = true.
+Proof.
+  unfold cables_of, nonleaf_ref. destruct (iref s x) as [d|]; [|congruence].
+  destruct (kids s RChildren d), (kids s RCables d); congruence || reflexivity.
+Qed.
+
+Lemma ports_nodup s x : Inv1a s -> NoDup (ports_of s x).
+Proof. intro I. unfold ports_of. destruct (iref s x); [apply (i1_nodup s I)|constructor]. Qed.
+Lemma cables_nodup s x : Inv1a s -> NoDup (cables_of s x).
+Proof. intro I. unfold cables_of. destruct (iref s x); [apply (i1_nodup s I)|constructor]. Qed.
+
+(* the scope of a recursive contents query *)
+Lemma scope_rec s keep t : Inv1a s -> WFk s -> acyclic s ->
+  exists lw, walk s keep (depth_fuel s) [t] = Some lw /\ NoDup lw /\
+             forall p, In p lw <-> ext s keep [t] p.
+Proof.
+  intros I W A. destruct (walk s keep (depth_fuel s) [t]) as [lw|] eqn:E;
+    [|exfalso; exact (walk_fuel_sufficient s keep t W A E)].
+  exists lw. split; [reflexivity|]. exact (walk_spec _ _ _ _ I E).
+Qed.
+
+Theorem enum_ports_spec : forall s n t,
+  Inv1a s -> WFk s -> acyclic s -> top s n = Some t -> is_valid s [t] = true ->
+  exists l, get_hports_netlist s n true = Some l /\ NoDup l /\
+            (forall h, In h l <-> exists q x p, h = q :: x :: p /\ is_rpath s t (x :: p) /\
+                                               In q (ports_of s x)).
+Proof.
+  intros s n t I W A Ht Hv.
+  unfold get_hports_netlist, netlist_contents, top_href, hports_below, scope. rewrite Ht, Hv.
+  destruct (scope_rec s (has_ref s) t I W A) as (lw & -> & Hn & Hi). cbn [option_map].
+  eexists. split; [reflexivity|]. rewrite hports_items.
+  apply (items_below_spec s (has_ref s) t lw Hn Hi (has_ref_inner s)).
+  - intro x. apply ports_nodup. exact I.
+  - apply has_ref_ports.
+Qed.
+
+Theorem enum_pins_spec : forall s n t,
+  Inv1a s -> WFk s -> acyclic s -> top s n = Some t -> is_valid s [t] = true ->
+  exists l, get_hpins_netlist s n true = Some l /\ NoDup l /\
+            (forall h, In h l <-> exists i q x p, h = i :: q :: x :: p /\ is_rpath s t (x :: p) /\
+                                                 In q (ports_of s x) /\ In i (kids s RPins q)).
+Proof.
+  intros s n t I W A Ht Hv.
+  unfold get_hpins_netlist, netlist_contents, top_href, hpins_below, scope. rewrite Ht, Hv.
+  destruct (scope_rec s (has_ref s) t I W A) as (lw & -> & Hn & Hi). cbn [option_map].
+  eexists. split; [reflexivity|]. rewrite hpins_items.
+  apply (subitems_below_spec s (has_ref s) t lw Hn Hi (has_ref_inner s)).
+  - intro x. apply ports_nodup. exact I.
+  - intro q. apply (i1_nodup s I).
+  - apply has_ref_ports.
+Qed.
+
+Theorem enum_cables_spec : forall s n t,
+  Inv1a s -> WFk s -> acyclic s -> top s n = Some t -> is_valid s [t] = true ->
+  exists l, get_hcables_netlist s n true = Some l /\ NoDup l /\
+            (forall h, In h l <-> exists c x p, h = c :: x :: p /\ is_rpath s t (x :: p) /\
+                                               In c (cables_of s x)).
+Proof.
+  intros s n t I W A Ht Hv.
+  unfold get_hcables_netlist, netlist_contents, top_href, hcables_below, scope. rewrite Ht, Hv.
+  destruct (scope_rec s (nonleaf_ref s) t I W A) as (lw & -> & Hn & Hi). cbn [option_map].
+  eexists. split; [reflexivity|]. rewrite hcables_items.
+  apply (items_below_spec s (nonleaf_ref s) t lw Hn Hi (nonleaf_inner s)).
+  - intro x. apply cables_nodup. exact I.
+  - apply nonleaf_cables.
+Qed.
+
+Theorem enum_wires_spec : forall s n t,
+  Inv1a s -> WFk s -> acyclic s -> top s n = Some t -> is_valid s [t] = true ->
+  exists l, get_hwires_netlist s n true = Some l /\ NoDup l /\
+            (forall h, In h l <-> exists w c x p, h = w :: c :: x :: p /\ is_rpath s t (x :: p) /\
+                                                 In c (cables_of s x) /\ In w (kids s RWires c)).
+Proof.
+  intros s n t I W A Ht Hv.
+  unfold get_hwires_netlist, netlist_contents, top_href, hwires_below, scope. rewrite Ht, Hv.
+  destruct (scope_rec s (nonleaf_ref s) t I W A) as (lw & -> & Hn & Hi). cbn [option_map].
+  eexists. split; [reflexivity|]. rewrite hwires_items.
+  apply (subitems_below_spec s (nonleaf_ref s) t lw Hn Hi (nonleaf_inner s)).
+  - intro x. apply cables_nodup. exact I.
+  - intro q. apply (i1_nodup s I).
+  - apply nonleaf_cables.
+Qed.
+
+(* the universe of wire occurrences used by the C12 closure: unfiltered walk, no validity test *)
+Theorem all_hwires_spec : forall s n t,
+  Inv1a s -> WFk s -> acyclic s -> top s n = Some t ->
+  exists l, all_hwires s n = Some l /\ NoDup l /\
+            (forall h, In h l <-> exists w c x p, h = w :: c :: x :: p /\ is_rpath s t (x :: p) /\
+                                                 In c (cables_of s x) /\ In w (kids s RWires c)).
+Proof.
+  intros s n t I W A Ht. unfold all_hwires, all_ipaths, top_href. rewrite Ht.
+  destruct (scope_rec s keep_all t I W A) as (lw & -> & Hn & Hi). cbn [option_map].
+  eexists. split; [reflexivity|]. rewrite hwires_items.
+  apply (subitems_below_spec s keep_all t lw Hn Hi (keep_all_inner s)).
+  - intro x. apply cables_nodup. exact I.
+  - intro q. apply (i1_nodup s I).
+  - reflexivity.
+Qed.
+
+(* the recursive wire query and the closure universe agree as sets (same spec, both NoDup) *)
+Corollary hwires_netlist_all_hwires : forall s n t l l',
+  Inv1a s -> WFk s -> acyclic s -> top s n = Some t -> is_valid s [t] = true ->
+  get_hwires_netlist s n true = Some l -> all_hwires s n = Some l' ->
+  forall h, In h l <-> In h l'.
+Proof.
+  intros s n t l l' I W A Ht Hv H1 H2 h.
+  destruct (enum_wires_spec s n t I W A Ht Hv) as (m & E1 & _ & S1).
+  destruct (all_hwires_spec s n t I W A Ht) as (m' & E2 & _ & S2).
+  rewrite H1 in E1. rewrite H2 in E2. inversion E1; inversion E2; subst.
+  rewrite S1, S2. reflexivity.
+Qed.
+
+(* ---- non-recursive variants: only the top instance is in scope; no walk, hence neither WFk
+        nor acyclicity is needed ---- *)
+Theorem enum_ports_nonrec_spec : forall s n t,
+  Inv1a s -> top s n = Some t -> is_valid s [t] = true ->
+  exists l, get_hports_netlist s n false = Some l /\ NoDup l /\
+            (forall h, In h l <-> exists q, h = [q; t] /\ In q (ports_of s t)).
+Proof.
+  intros s n t I Ht Hv.
+  unfold get_hports_netlist, netlist_contents, top_href, hports_below, scope. rewrite Ht, Hv.
+  cbn [option_map flat_map]. rewrite app_nil_r, hports_items.
+  eexists. split; [reflexivity|]. split.
+  - apply items_at_nodup. intro x. apply ports_nodup. exact I.
+  - intro h. rewrite items_at_in. split.
+    + intros (q & x & r & E & -> & Hq). inversion E; subst. exists q. split; [reflexivity|exact Hq].
+    + intros (q & -> & Hq). exists q, t, []. repeat split. exact Hq.
+Qed.
+
+Theorem enum_pins_nonrec_spec : forall s n t,
+  Inv1a s -> top s n = Some t -> is_valid s [t] = true ->
+  exists l, get_hpins_netlist s n false = Some l /\ NoDup l /\
+            (forall h, In h l <-> exists i q, h = [i; q; t] /\ In q (ports_of s t) /\
+                                             In i (kids s RPins q)).
+Proof.
+  intros s n t I Ht Hv.
+  unfold get_hpins_netlist, netlist_contents, top_href, hpins_below, scope. rewrite Ht, Hv.
+  cbn [option_map flat_map]. rewrite app_nil_r, hpins_items.
+  eexists. split; [reflexivity|]. split.
+  - apply subitems_at_nodup; [intro x; apply ports_nodup; exact I|intro q; apply (i1_nodup s I)].
+  - intro h. rewrite subitems_at_in. split.
+    + intros (i & q & x & r & E & -> & Hq & Hi). inversion E; subst. exists i, q. repeat split; assumption.
+    + intros (i & q & -> & Hq & Hi). exists i, q, t, []. repeat split; assumption.
+Qed.
+
+Theorem enum_cables_nonrec_spec : forall s n t,
+  Inv1a s -> top s n = Some t -> is_valid s [t] = true ->
+  exists l, get_hcables_netlist s n false = Some l /\ NoDup l /\
+            (forall h, In h l <-> exists c, h = [c; t] /\ In c (cables_of s t)).
+Proof.
+  intros s n t I Ht Hv.
+  unfold get_hcables_netlist, netlist_contents, top_href, hcables_below, scope. rewrite Ht, Hv.
+  cbn [option_map flat_map]. rewrite app_nil_r, hcables_items.
+  eexists. split; [reflexivity|]. split.
+  - apply items_at_nodup. intro x. apply cables_nodup. exact I.
+  - intro h. rewrite items_at_in. split.
+    + intros (q & x & r & E & -> & Hq). inversion E; subst. exists q. split; [reflexivity|exact Hq].
+    + intros (q & -> & Hq). exists q, t, []. repeat split. exact Hq.
+Qed.
+
+Theorem enum_wires_nonrec_spec : forall s n t,
+  Inv1a s -> top s n = Some t -> is_valid s [t] = true ->
+  exists l, get_hwires_netlist s n false = Some l /\ NoDup l /\
+            (forall h, In h l <-> exists w c, h = [w; c; t] /\ In c (cables_of s t) /\
+                                             In w (kids s RWires c)).
+Proof.
+  intros s n t I Ht Hv.
+  unfold get_hwires_netlist, netlist_contents, top_href, hwires_below, scope. rewrite Ht, Hv.
+  cbn [option_map flat_map]. rewrite app_nil_r, hwires_items.
+  eexists. split; [reflexivity|]. split.
+  - apply subitems_at_nodup; [intro x; apply cables_nodup; exact I|intro q; apply (i1_nodup s I)].
+  - intro h. rewrite subitems_at_in. split.
+    + intros (i & q & x & r & E & -> & Hq & Hi). inversion E; subst. exists i, q. repeat split; assumption.
+    + intros (i & q & -> & Hq & Hi). exists i, q, t, []. repeat split; assumption.
+Qed.
+
+(* when the root reference is not valid the four contents queries report nothing (the
+   work-list drops it), whereas get_hinstances still enumerates: the validity hypothesis above
+   cannot be dropped *)
+Lemma contents_invalid_root below s n t rec :
+  top s n = Some t -> is_valid s [t] = false -> netlist_contents below s n rec = Some [].
+Proof. intros Ht Hv. unfold netlist_contents, top_href. rewrite Ht, Hv. reflexivity. Qed.
+
+(* ------------------------------------------------------------------------------------------ *)
+(* D. the hypotheses are satisfiable: netlist 0, library 1, definitions 2 (A) and 3 (B),
+      top instance 4 of A, child 5 of A referencing B                                          *)
+
+Definition ex_state : state :=
+  mkState 6
+    (fun x => match x with
+              | 0 => Some KNetlist | 1 => Some KLibrary | 2 => Some KDefinition
+              | 3 => Some KDefinition | 4 => Some KInstance | 5 => Some KInstance
+              | _ => None end)
+    (fun r p => match r, p with
+                | RLibs, 0 => [1] | RDefs, 1 => [2; 3] | RChildren, 2 => [5]
+                | _, _ => [] end)
+    (fun r c => match r, c with
+                | RLibs, 1 => Some 0 | RDefs, 2 => Some 1 | RDefs, 3 => Some 1
+                | RChildren, 5 => Some 2
+                | _, _ => None end)
+    (wpins init) (ipwire init)
+    (fun x => match x with 4 => Some 2 | 5 => Some 3 | _ => None end)
+    (fun d => match d with 2 => [4] | 3 => [5] | _ => [] end)
+    (ipins init)
+    (fun n => match n with 0 => Some 4 | _ => None end)
+    (fun x => match x with 4 => true | _ => false end)
+    (bdownto init) (bscalar init) (blower init) (pdir init) (data init) (nstab init)
+    PolDefault [].
+
+Lemma ex_child c x : child ex_state c x -> x = 4 /\ c = 5.
+Proof.
+  unfold child, sub. cbn.
+  destruct x as [|[|[|[|[|[|x]]]]]]; cbn; try contradiction.
+  intros [<-|[]]. split; reflexivity.
+Qed.
+
+Lemma ex_inv1a : Inv1a ex_state.
+Proof.
+  constructor.
+  - intros r p x. destruct r; cbn;
+      destruct p as [|[|[|p]]]; destruct x as [|[|[|[|[|[|x]]]]]]; cbn;
+      split; intro H; try reflexivity; try discriminate; try contradiction;
+      try (repeat destruct H as [H|H]; try discriminate H; contradiction);
+      try (left; reflexivity); try (right; left; reflexivity).
+  - intros r p. destruct r; cbn; destruct p as [|[|[|p]]]; cbn;
+      repeat (constructor; cbn; try (intros [H|H]; [discriminate H|exact H]); try (intros []));
+      try (intro H; exact H).
+Qed.
+
+Lemma ex_wfk : WFk ex_state.
+Proof.
+  constructor.
+  - intros r p c. destruct r; cbn; destruct p as [|[|[|p]]]; cbn; try contradiction;
+      intro H; repeat destruct H as [<-|H]; try reflexivity; try contradiction.
+  - intros r p c. destruct r; cbn; destruct p as [|[|[|p]]]; cbn; try contradiction;
+      intros _; reflexivity.
+  - intros x d. cbn. destruct x as [|[|[|[|[|[|x]]]]]]; cbn; try discriminate; reflexivity.
+  - intros r p c. destruct r; cbn; destruct p as [|[|[|p]]]; cbn; try contradiction;
+      intro H; repeat destruct H as [<-|H]; try lia; try contradiction.
+  - intros x d. cbn. destruct x as [|[|[|[|[|[|x]]]]]]; cbn; try discriminate; lia.
+Qed.
+
+Lemma ex_acyclic : acyclic ex_state.
+Proof.
+  intro x. constructor. intros c H. apply ex_child in H as [-> ->].
+  constructor. intros c' H'. apply ex_child in H' as [E _]. discriminate.
+Qed.
+
+Example enum_hyps_satisfiable :
+  exists s, Inv1a s /\ WFk s /\ acyclic s /\ exists n t, top s n = Some t /\ sub s t <> [].
+Proof.
+  exists ex_state. split; [exact ex_inv1a|]. split; [exact ex_wfk|]. split; [exact ex_acyclic|].
+  exists 0, 4. split; [reflexivity|]. cbn. discriminate.
+Qed.
+
+(* the extra hypothesis of the contents theorems holds on the same state, and the recursive
+   instance query computes the expected single path below the top instance *)
+Example ex_valid_root : is_valid ex_state [4] = true.
+Proof. reflexivity. Qed.
+
+Example ex_instances : get_hinstances_netlist ex_state 0 true = Some [[5; 4]].
+Proof. reflexivity. Qed.
+
+Print Assumptions chain_nodup.
+Print Assumptions chain_length.
+Print Assumptions walk_fuel_sufficient.
+Print Assumptions walk_spec.
+Print Assumptions ext_all_rpath.
+Print Assumptions all_ipaths_spec.
+Print Assumptions enum_instances_spec.
+Print Assumptions enum_instances_nonrec_spec.
+Print Assumptions enum_ports_spec.
+Print Assumptions enum_pins_spec.
+Print Assumptions enum_cables_spec.
+Print Assumptions enum_wires_spec.
+Print Assumptions all_hwires_spec.
+Print Assumptions hwires_netlist_all_hwires.
+Print Assumptions enum_ports_nonrec_spec.
+Print Assumptions enum_pins_nonrec_spec.
+Print Assumptions enum_cables_nonrec_spec.
+Print Assumptions enum_wires_nonrec_spec.
+Print Assumptions contents_invalid_root.
+Print Assumptions enum_hyps_satisfiable.
+Print Assumptions ex_valid_root.
+Print Assumptions ex_instances.
